@@ -50,6 +50,7 @@ type Stats struct {
 	Branches       int // solver-decided branch points
 	BranchesBoth   int // ... where both sides were feasible
 	UnknownBranch  int
+	ModelHits      int // branch sides / assumptions decided by evaluating the cached model (no query)
 	ShapeForks     int
 	Asserts        map[string]*AssertStat
 	Reach          map[string]int
@@ -92,7 +93,7 @@ type Explorer struct {
 
 	mu      sync.Mutex
 	cond    *sync.Cond
-	queue   [][]int32
+	queue   []workItem
 	active  int
 	stop    bool
 	harness *ssa.Function
@@ -113,6 +114,11 @@ type Explorer struct {
 	KnownHits []*cexRec
 	Witnesses []*Witness
 	Truncated bool
+}
+
+type workItem struct {
+	prefix []int32
+	seed   model
 }
 
 type worker struct {
@@ -147,7 +153,7 @@ func (ex *Explorer) resetStats() {
 	ex.stop = false
 }
 
-func (ex *Explorer) push(p []int32) {
+func (ex *Explorer) push(p workItem) {
 	ex.mu.Lock()
 	ex.queue = append(ex.queue, p)
 	ex.mu.Unlock()
@@ -160,6 +166,11 @@ func (ex *Explorer) noteBranch(both bool) {
 	if both {
 		ex.St.BranchesBoth++
 	}
+	ex.mu.Unlock()
+}
+func (ex *Explorer) noteModelHit() {
+	ex.mu.Lock()
+	ex.St.ModelHits++
 	ex.mu.Unlock()
 }
 func (ex *Explorer) noteUnknownBranch() {
@@ -279,7 +290,7 @@ func (ex *Explorer) Run(fn *ssa.Function, name string) {
 	ex.prepareBase()
 	ex.harness, ex.hname = fn, name
 	t0 := time.Now()
-	ex.queue = [][]int32{{}}
+	ex.queue = []workItem{{}}
 	var wg sync.WaitGroup
 	doneCh := make(chan struct{})
 	if os.Getenv("SYMGO_PROGRESS") != "" {
@@ -371,13 +382,14 @@ func (ex *Explorer) Run(fn *ssa.Function, name string) {
 	ex.St.Wall = time.Since(t0)
 }
 
-func (ex *Explorer) runPath(w *worker, prefix []int32) {
+func (ex *Explorer) runPath(w *worker, item workItem) {
+	prefix := item.prefix
 	w.solver.reset()
 	i := newInterpreter(ex, 0)
 	if ex.Trace {
 		i.mode |= EnableTracing
 	}
-	c := &pathCtx{ex: ex, w: w, prefix: prefix, names: map[string]int{}, known: map[string]*expr{}, inputLen: -1}
+	c := &pathCtx{ex: ex, w: w, prefix: prefix, names: map[string]int{}, known: map[string]*expr{}, inputLen: -1, lastModel: item.seed}
 	i.ctx = c
 	var outcome string
 	var detail string
